@@ -486,7 +486,10 @@ class Array(metaclass=MetaArray):
             )
             coffset += 8 * len(header)
         if not cls._is_static_type:
-            Int64._array_to_buffer(buffer, coffset, info.offsets)
+            offsets = info.offsets
+            if offsets.ndim > 1:  # table is stored in memory order
+                offsets = offsets.transpose(info.order)
+            Int64._array_to_buffer(buffer, coffset, offsets)
             coffset += 8 * len(info.offsets)
         if hasattr(cls._itemtype, "_dtype") and hasattr(
             value, "dtype"
